@@ -208,6 +208,9 @@ func runC02(c *eng.Ctx) {
 	})
 
 	// ---- 6/7/8. the keep-set ------------------------------------------------------------------------------------------
+	// ---- 5b. a reader's file selection visits every file of a level whose range holds the key (rule shared with C15 / C03) ---------
+	c.Rule("GUARD", "kv/version.version.FindFiles{inclusive}", func() { findFilesInclusive(c) })
+
 	c.Rule("UNION", famT+".deleteObsoleteFiles{keep-set}", func() { obsoleteKeepSet(c) })
 
 	// ---- 9/10/11. reader cache -----------------------------------------------------------------------------------------
